@@ -44,7 +44,15 @@ fn analyse(m: &mut Monitor, fam: &str, case: u64, feed: &St, info: &Value) -> Op
     for t in &trials {
         let d = tpd(feed, t);
         // strictly negative; -d is the margin
-        m.check_bool("trial:tangent plane distance < 0", &format!("{fam}|tpd"), case, d < 0.0, || json!({"info": info, "tpd": d, "w": t.molefracs.to_vec()}));
+        // the library accepts a trial phase below -1e-8 in its own evaluation; recomputed from
+        // ln phi (|ln phi| ~ 10, accurate to ~1e-9 relative) a distance within +-1e-7 of zero
+        // cannot be told from a negative one: counted as marginal, not judged
+        if d.abs() < 1e-7 {
+            m.count("trial_phase_tpd_marginal", 1);
+            m.skip("trial:tangent plane distance < 0", "marginal (|tpd| < 1e-7)");
+        } else {
+            m.check_bool("trial:tangent plane distance < 0", &format!("{fam}|tpd"), case, d < 0.0, || json!({"info": info, "tpd": d, "w": t.molefracs.to_vec()}));
+        }
         m.check_bool("trial:same temperature", &format!("{fam}|trial T"), case, t.temperature == feed.temperature, || info.clone());
         let pt = t.pressure(Contributions::Total).to_reduced();
         m.check("trial:same pressure", &format!("{fam}|trial p"), case, ((pt - pf).abs() - 1e-11).max(0.0) / pf.abs(), 1e-6, || json!({"info": info, "p_trial": pt, "p_feed": pf}));
@@ -94,7 +102,7 @@ pub fn run(cfg: Config) -> i32 {
 
 fn mixtures(m: &mut Monitor, cfg: &Config) {
     let pairs = hydrocarbon_pairs(1.8);
-    let n = cfg.tier.pick(1200, 8000);
+    let n = cfg.tier.pick(1200, 60_000);
     let idx: Vec<u64> = (0..n).collect();
     par_cases(m, &idx, |m, _, &i| {
         let mut rng = Rng::derive(cfg.seed, "c07-mix", i);
@@ -220,7 +228,7 @@ fn mixtures(m: &mut Monitor, cfg: &Config) {
 
 fn zoo(m: &mut Monitor, cfg: &Config) {
     let col = Collections::load();
-    let n = cfg.tier.pick(1000, 6000);
+    let n = cfg.tier.pick(1000, 40_000);
     let idx: Vec<u64> = (0..n).collect();
     par_cases(m, &idx, |m, _, &i| {
         let mut rng = Rng::derive(cfg.seed, "c07-zoo", i);
